@@ -56,7 +56,20 @@ type Job struct {
 	Procs       int    `json:"procs"`
 	HeaderFirst bool   `json:"header_first"` // call Header() (ignoring its result) before the Scan loop
 	ReadErr     bool   `json:"read_err"`     // cut jobs: the reader ends with a transport error instead of io.EOF
+	// Watchdog seconds for this scan (0 = 25). Once a scan has hung in this
+	// process (a first hang is established with the full 25 s), later scans -
+	// shrinking re-runs the enumeration many times - get 8 s.
+	Watchdog int `json:"watchdog"`
 }
+
+func (j *Job) watchdog() int {
+	if j.Watchdog > 0 {
+		return j.Watchdog
+	}
+	return 25
+}
+
+var seenHang int32
 
 var errTransport = errors.New("c06: connection reset by peer")
 
@@ -120,11 +133,11 @@ func childMain() {
 			select {
 			case v := <-done:
 				out.Encode(v)
-			case <-time.After(25 * time.Second):
+			case <-time.After(time.Duration(j.watchdog()) * time.Second):
 				buf := make([]byte, 1<<20)
 				n := runtime.Stack(buf, true)
 				os.Stderr.Write(buf[:n])
-				out.Encode(Verdict{ID: j.ID, Sig: "C06/hang", Msg: "scan did not finish within 25s; goroutine dump:\n" + trunc(string(buf[:n]), 6000)})
+				out.Encode(Verdict{ID: j.ID, Sig: "C06/hang", Msg: fmt.Sprintf("scan did not finish within %ds; goroutine dump:\n", j.watchdog()) + trunc(string(buf[:n]), 6000)})
 				os.Exit(3)
 			}
 		}
@@ -702,6 +715,9 @@ func runJobs(jobs []Job) ([]Verdict, error) {
 						return
 					}
 				}
+				if atomic.LoadInt32(&seenHang) > 0 {
+					jobs[i].Watchdog = 8
+				}
 				jb, _ := json.Marshal(jobs[i])
 				c.in.Write(append(jb, '\n'))
 				got := false
@@ -716,6 +732,7 @@ func runJobs(jobs []Job) ([]Verdict, error) {
 						got = true
 						if v.Sig == "C06/hang" {
 							atomic.AddInt32(&hangs, 1)
+							atomic.StoreInt32(&seenHang, 1)
 							c.kill()
 							c = nil
 						}
